@@ -133,22 +133,19 @@ func crashKey(o Out) string {
 	return ""
 }
 
-// hangClass is the coarse document class of a hang: the layout features still present in the
-// (shrunk) document.
+// hangClass is the coarse document class of a hang: the first layout feature, in this priority
+// order, that is still present in the (shrunk) document.
 func hangClass(d *Doc) string {
-	fs := Features(d.Text())
-	keep := map[string]bool{"float": true, "abspos": true, "fixed": true, "table": true, "flex": true, "grid": true, "columns": true, "break": true,
-		"page-rule": true, "footnote": true, "running": true, "inline-block": true, "margin-box": true, "named-page": true, "list": true, "box-decoration-break": true}
-	var out []string
-	for _, f := range fs {
-		if keep[f] {
-			out = append(out, f)
+	has := map[string]bool{}
+	for _, f := range Features(d.Text()) {
+		has[f] = true
+	}
+	for _, f := range []string{"columns", "flex", "grid", "table", "float", "abspos", "fixed", "inline-block", "footnote", "running", "page-rule", "break"} {
+		if has[f] {
+			return f
 		}
 	}
-	if len(out) == 0 {
-		return "plain"
-	}
-	return strings.Join(out, "+")
+	return "plain"
 }
 
 // Run is the C01 search run.
@@ -166,7 +163,7 @@ func Run(tier string, seed uint64, modelPath, repo string, out *res.Result) erro
 			nDocs = n
 		}
 	}
-	out.Rule = "documents = element soup (<=45 elements, depth<=6: blocks, inlines, tables, lists, forms, img/data: URIs valid+corrupt, inline SVG) x inline/author/user CSS (display/position/float/columns/flex/grid/table/break/counters/content/var()/@page degenerate sizes/margin boxes/@counter-style/@font-face/@media) x hints on/off x {pango, go-text}; every document rendered in a worker subprocess (10 s watchdog, page-loop detector, memory cap); non-trivial = rendered to >=1 page with >=5 nodes, distinct by document text; 1/" + strconv.Itoa(metaEvery) + " of the rendered documents re-rendered with one injected invalid construct and compared trace for trace"
+	out.Rule = "documents = element soup (<=45 elements, depth<=6: blocks, inlines, tables, lists, forms, img/data: URIs valid+corrupt, inline SVG) x inline/author/user CSS (display/position/float/columns/flex/grid/table/break/counters/content/var()/@page degenerate sizes/margin boxes/@counter-style/@font-face/@media) x hints on/off x {pango, go-text}; every document rendered in a worker subprocess (watchdog: 10 s of CPU time, re-run alone with 120 s; page-loop detector; 2 GiB heap cap); non-trivial = rendered to >=1 page with >=5 nodes, distinct by document text; 1/" + strconv.Itoa(metaEvery) + " of the rendered documents re-rendered with one injected invalid construct and compared trace for trace"
 
 	// Lean model correspondence (small models of the loop-carrying cores)
 	if err := runModel(modelPath, seed, tier, repo, out); err != nil {
@@ -252,7 +249,7 @@ func Run(tier string, seed uint64, modelPath, repo string, out *res.Result) erro
 		case "pageloop":
 			fails = append(fails, failure{doc: d, out: o, key: "hang", kind: "crash", reason: fmt.Sprintf("page loop: page %d announced for a document of %d bytes (limit 4*bytes+200)", o.Counted, len(txt))})
 		case "memory":
-			fails = append(fails, failure{doc: d, out: o, key: "hang", kind: "crash", reason: fmt.Sprintf("memory blow-up (>3 GiB heap) after %d pages", o.Counted)})
+			fails = append(fails, failure{doc: d, out: o, key: "memory", kind: "crash", reason: fmt.Sprintf("memory blow-up (>2 GiB heap) after %d pages", o.Counted)})
 		case "timeout":
 			timeouts = append(timeouts, i)
 		}
@@ -276,8 +273,10 @@ func Run(tier string, seed uint64, modelPath, repo string, out *res.Result) erro
 		switch o.Status {
 		case "timeout":
 			rerunPerClass[cls]++
-			fails = append(fails, failure{doc: docs[i], out: o, key: "hang", kind: "crash", reason: fmt.Sprintf("no result after 120 s when run alone (page %d announced)", o.Counted)})
-		case "pageloop", "memory":
+			fails = append(fails, failure{doc: docs[i], out: o, key: "hang", kind: "crash", reason: fmt.Sprintf("no result after 120 s of CPU time when run alone (page %d announced)", o.Counted)})
+		case "memory":
+			fails = append(fails, failure{doc: docs[i], out: o, key: "memory", kind: "crash", reason: fmt.Sprintf("memory blow-up (>2 GiB heap) when run alone (page %d announced)", o.Counted)})
+		case "pageloop":
 			rerunPerClass[cls]++
 			fails = append(fails, failure{doc: docs[i], out: o, key: "hang", kind: "crash", reason: fmt.Sprintf("%s when run alone (page %d announced)", o.Status, o.Counted)})
 		case "panic", "fatal":
@@ -501,11 +500,18 @@ func shrinkOne(pool *Pool, f failure) res.Finding {
 			vo := pool.One(vc)
 			return vo.Status == "ok" && vo.Trace != bo.Trace
 		}
-	case f.key == "hang":
-		budget = 60
+	case f.key == "memory":
+		budget = 12
 		still = func(d *Doc) bool {
 			c := d.Case()
-			c.LimitMS, c.MaxPages, c.NoTrace = 6000, maxPages(c), true
+			c.LimitMS, c.MaxPages, c.NoTrace = 20000, maxPages(c), true
+			return pool.One(c).Status == "memory"
+		}
+	case f.key == "hang":
+		budget = 30
+		still = func(d *Doc) bool {
+			c := d.Case()
+			c.LimitMS, c.MaxPages, c.NoTrace = 5000, maxPages(c), true
 			o := pool.One(c)
 			return o.Status == "pageloop" || o.Status == "timeout" || o.Status == "memory"
 		}
